@@ -411,11 +411,22 @@ func TestC14(t *testing.T) {
 			if repeatCached {
 				// the zone does not change and no time passes: asking again (answers and
 				// failures now possibly remembered) gives the same outcome every time
-				first := fmt.Sprintf("%+v|%v", res, rerr)
+				errKey := func(e error) string {
+					if e == nil {
+						return "no error"
+					}
+					for _, s := range []error{ech.ErrInvalidName, ech.ErrFormatError, ech.ErrServerFailure, ech.ErrNonExistentDomain, ech.ErrNotImplemented, ech.ErrQueryRefused} {
+						if errors.Is(e, s) {
+							return "error: " + s.Error()
+						}
+					}
+					return "error (other)" // which sub-lookup reported it may differ once answers are cached
+				}
+				first := fmt.Sprintf("%+v|%s", res, errKey(rerr))
 				for i := 2; i <= 4; i++ {
 					var res2 ech.ResolveResult
 					e2 := guard(func() error { var e error; res2, e = r.Resolve(ctx, input); return e })
-					if again := fmt.Sprintf("%+v|%v", res2, e2); again != first {
+					if again := fmt.Sprintf("%+v|%s", res2, errKey(e2)); again != first {
 						repeatDiff = fmt.Sprintf("call %d of Resolve(%q) on the same resolver returned %s, the first call returned %s", i, input[:min(len(input), 100)], again, first)
 						break
 					}
